@@ -112,8 +112,80 @@ func (g *guard) run(f func() error) outcome {
 	case <-g.timer.C:
 		leaked.Add(1)
 		g.r = newRunner()
-		return outcome{TimedOut: true}
+		return outcome{TimedOut: true, Stack: stuckStack()}
 	}
+}
+
+// stuckStack is the stack (frames of core) of the newest goroutine that is still inside a guarded closure:
+// the one that has just missed its deadline.
+func stuckStack() string {
+	buf := make([]byte, 4<<20)
+	buf = buf[:runtime.Stack(buf, true)]
+	best, bestID := "", -1
+	for _, gr := range strings.Split(string(buf), "\n\n") {
+		if !strings.Contains(gr, "main.protect(") || !strings.Contains(gr, "go.sia.tech/core/") {
+			continue
+		}
+		var id int
+		if _, err := fmt.Sscanf(gr, "goroutine %d ", &id); err != nil {
+			continue
+		}
+		if id > bestID {
+			best, bestID = gr, id
+		}
+	}
+	return trimStack(best)
+}
+
+// allocStack runs f once more and returns the call stack (frames of core, innermost first) that allocated the most
+// during the run, from the runtime's allocation profile (allocations above the sampling rate are always recorded).
+func (g *guard) allocStack(f func() error) string {
+	snap := func() map[[32]uintptr]int64 {
+		runtime.GC()
+		runtime.GC()
+		n, _ := runtime.MemProfile(nil, true)
+		recs := make([]runtime.MemProfileRecord, n+64)
+		n, ok := runtime.MemProfile(recs, true)
+		if !ok {
+			return nil
+		}
+		m := map[[32]uintptr]int64{}
+		for _, r := range recs[:n] {
+			m[r.Stack0] += r.AllocBytes
+		}
+		return m
+	}
+	before := snap()
+	if o := g.run(f); o.bad() {
+		return ""
+	}
+	after := snap()
+	var best [32]uintptr
+	var bestN int64
+	for k, v := range after {
+		if d := v - before[k]; d > bestN {
+			best, bestN = k, d
+		}
+	}
+	if bestN == 0 {
+		return ""
+	}
+	n := 0
+	for n < len(best) && best[n] != 0 {
+		n++
+	}
+	frames := runtime.CallersFrames(best[:n])
+	var lines []string
+	for {
+		fr, more := frames.Next()
+		if strings.HasPrefix(fr.Function, "go.sia.tech/core/") {
+			lines = append(lines, fr.Function+"(...)", fmt.Sprintf("%s:%d", fr.File, fr.Line))
+		}
+		if !more {
+			break
+		}
+	}
+	return strings.Join(lines, "\n")
 }
 
 // allocBound is the allocation a case of the given input length may cause: 64 x input + 1 MiB.
